@@ -159,6 +159,7 @@ class Func:
         if 'cv' in n: return n['cv']
         k = n['k']
         if k == 'lit' and isinstance(n.get('v'), (bool, int)) and n.get('v') is not None: return int(n['v'])
+        if k == 'ref' and n.get('dk') in ('enum', 'smember', 'var') and isinstance(n.get('v'), int): return n['v']
         if k == 'un' and n['op'] == '!':
             v = self.eval_const(n['e'], depth + 1)
             return None if v is None else int(not v)
